@@ -116,6 +116,8 @@ func c16Variations(hist func(string), tn string) []c16Var {
 		{Name: "via-symlink-dot-segment", Cwd: "/", Src: "/v/links/abs/."},
 		{Name: "via-symlink-relative-target-dot-slash", Cwd: "/v/else/deep", Src: "/v/links/rel/./"},
 		{Name: "via-symlink-relative-spelling-dot-segment", Cwd: "/v/links", Src: "./chain/."},
+		{Name: "via-symlinked-parent-directory", Cwd: "/", Src: "/v/plink/tree"},
+		{Name: "via-symlinked-parent-directory-relative", Cwd: "/v", Src: "plink/tree/"},
 		{Name: "after-pack-of-another-tree", Cwd: "/", Src: "/v/work/tree", Prep: func() error { hist("other"); return nil }},
 		{Name: "after-pack-of-negation-first-rules", Cwd: "/", Src: "/v/work/tree", Prep: func() error { hist("neg"); return nil }},
 		{Name: "after-50-mixed-calls", Cwd: "/v/else", Src: "/v/work/tree", Prep: func() error {
@@ -151,6 +153,10 @@ func c16Run(env *fw.Env, idx int) fw.Result {
 	}
 	c16Materialise("/v/hist/other", gen.TreeSpec{Nodes: []gen.NodeSpec{{Path: "o/x.log", Kind: "file", Mode: 0644, Content: "o"}, {Path: ".git/c", Kind: "file", Mode: 0644, Content: "g"}}}, "*.log\n")
 	c16Materialise("/v/hist/neg", gen.TreeSpec{Nodes: []gen.NodeSpec{{Path: "n/x.txt", Kind: "file", Mode: 0644, Content: "n"}, {Path: ".terraform/modules/m", Kind: "file", Mode: 0644, Content: "m"}}}, "!n/x.txt\n*.txt\n!.git/\n")
+	// a decoy: what the relative link targets below would name if they were
+	// read against the working directory /v/else/deep instead of the link's place
+	c16Materialise("/v/else/work/"+tn, gen.TreeSpec{Nodes: []gen.NodeSpec{{Path: "decoy.txt", Kind: "file", Mode: 0644, Content: "decoy", Mtime: 1500000000}}}, "")
+	os.Symlink("/v/work", "/v/plink")
 	os.Symlink("/v/work/"+tn, "/v/links/abs")
 	os.Symlink("../work/"+tn, "/v/links/rel")
 	os.Symlink("rel", "/v/links/chain")
@@ -375,8 +381,13 @@ func c16ReusedPacker(env *fw.Env, idx int) fw.Result {
 		return fw.Result{Verdict: fw.Inconclusive, Msg: err.Error()}
 	}
 	order := r.Perm(len(roots))
+	// ... and the first root once more at the end, after its rule file was rewritten
+	order = append(order, order[0])
 	for step, k := range order {
 		root := roots[k]
+		if step == len(roots) {
+			os.WriteFile(filepath.Join(root, ".terraformignore"), []byte("*.tf\n!keep.tf\nsub/\n"), 0644)
+		}
 		var o packObs
 		var buf bytes.Buffer
 		panicked, pv := fw.Try(func() { o.Meta, o.Err = shared.Pack(root, &buf) })
@@ -427,7 +438,7 @@ func init() {
 	fw.Register(&fw.Property{
 		ID:    "C16",
 		Level: "exploration",
-		Rule: "for each generated tree (with one of 7 rule files) and option set, Pack runs once by the absolute clean path (baseline) and then under 21 variations: 8 spellings/working directories (trailing slash, doubled slash, dot segments, relative from parent / inside / elsewhere / sibling), 8 ways through a symlink (absolute target, relative target with the working directory elsewhere and at the link, chain of two, trailing slash, dot segments after the link) and 5 call histories (another tree, a rule file beginning with a negation, the same relative spelling / '.' used earlier from another working directory for a different tree whose rule file has the same size and mtime, 50 mixed calls); decoded entry lists must be identical. " +
+		Rule: "for each generated tree (with one of 7 rule files) and option set, Pack runs once by the absolute clean path (baseline) and then under 23 variations: 8 spellings/working directories (trailing slash, doubled slash, dot segments, relative from parent / inside / elsewhere / sibling), 8 ways through a symlink (absolute target, relative target with the working directory elsewhere and at the link, chain of two, trailing slash, dot segments after the link, a symlinked parent directory; a decoy tree sits where relative link targets would lead from the working directory) and 5 call histories (another tree, a rule file beginning with a negation, the same relative spelling / '.' used earlier from another working directory for a different tree whose rule file has the same size and mtime, 50 mixed calls); decoded entry lists must be identical. " +
 			"Reuse: one Packer value (options incl. relative AllowSymlinkTarget entries) packs three different roots in PRNG order and every output must equal that of a fresh Packer with the same options. Concurrency: fresh race-instrumented worker per round, 8-16 goroutines packing different trees (default rules / negation-first rule files mixed) 3 times each behind a barrier (every other round through one shared Packer value; half of the rounds after Pack calls whose destination failed at the first byte, half way and at the final flush), outputs compared with solo runs; any race report is a violation. non-trivial = every case (each has >=1 non-baseline variation); distinct = tree x rules x options",
 		Assumptions: []string{"the baseline run is Pack of the absolute clean path in the same process", "the race detector only sees the interleavings the scheduler produced in these rounds"},
 		Phases:      []*fw.Phase{variations, reused, conc},
